@@ -371,3 +371,14 @@ PROPS = {
         "assumptions": ["the Register* functions documented as not concurrency-safe are not part of the workloads"],
     },
 }
+
+# The regenerated decoders (tools/decgen -> lean/Bmc/Gen/Dec.lean) and their equality with the hand models
+# (lean/Bmc/Proofs/GenDec.lean) support C05, C07 and C17 alike.
+GENDEC_LAYERS = 26
+_GENDEC_CLAIM = (" REGENERATED MODELS: the decoders of %d layers are RE-TRANSLATED from the Go source on every run (tools/decgen -> Gen/Dec.lean) and proved "
+                 "equal to the models the theorems are about, for every receiver and every Go slice (Proofs/GenDec.lean: T_gen_eq): a source change "
+                 "to a decoder breaks a proof obligation at build time." % GENDEC_LAYERS)
+for _p in ("C05", "C07", "C17"):
+    PROPS[_p]["claim"] += _GENDEC_CLAIM
+    PROPS[_p]["proofs"] = PROPS[_p]["proofs"] + ["Bmc.Proofs.GenDec"]
+    PROPS[_p]["modelled"] = PROPS[_p]["modelled"] + ["layers decgen gives up on (listed in Gen/Dec.lean: gaveUp, with reasons) stay hand models tied by correspondence only"]
